@@ -3,6 +3,8 @@ package verifsim
 import (
 	"crypto"
 	"crypto/x509"
+	"crypto/x509/pkix"
+	"encoding/asn1"
 	"math/big"
 	"time"
 
@@ -46,6 +48,8 @@ type Responder struct {
 	OtherSer   bool                // answer about another serial
 	NextUpdate time.Duration       // 0: absent; negative: in the past
 	Mutate     func(der []byte) []byte
+	Bulk       int // when > 0: answers carry a non-critical single extension of this many bytes (responses of CAs that
+	// embed responder chains, archive cutoffs, CT data ... are several KiB; size must not change what an answer means)
 	Hits       int
 	delegated  *CA
 	delegNoEKU *CA
@@ -109,6 +113,13 @@ func (r *Responder) Build(serial *big.Int, now time.Time) ([]byte, *OCSPAnswer) 
 	}
 	if r.NextUpdate != 0 {
 		tmpl.NextUpdate = now.Add(r.NextUpdate)
+	}
+	if r.Bulk > 0 {
+		pad := make([]byte, r.Bulk)
+		for i := range pad {
+			pad[i] = byte(i*7 + 1)
+		}
+		tmpl.ExtraExtensions = []pkix.Extension{{Id: asn1.ObjectIdentifier{1, 3, 6, 1, 4, 1, 55555, 1, 1}, Value: pad}}
 	}
 	issuerCert := r.Issuer.Cert
 	var respCert *x509.Certificate
